@@ -855,3 +855,4 @@ EXPLANATION += (' Round 7: ' + 'SEQ/squash-every-exit (must-pass-through); PITFA
 EXPLANATION += (' Rounds 9-10: ' + 'SEQ/leadsheet-defaults (sibling agreement with Melody); RANGE/filter-whatever-the-amount; SEQ/squash-every-exit answers cannot-classify for an exit under a further unclassified condition.')
 EXPLANATION += (' Round 11: ' + 'KEY/scenarios (key-signature loop body on 3 keys x 8 amounts).')
 EXPLANATION += (' Round 12: ' + 'PASS/wrap-both-ways shared from C15.')
+EXPLANATION += (' Round 14: ' + 'RANGE/extremes-in-one-pass.')
